@@ -82,9 +82,13 @@ def build_record(case: Dict[str, Any]) -> Any:
         from antismash.common.secmet.features import CandidateCluster
         protos = rec.get_protoclusters()
         by_product = {p.product: p for p in protos}
-        for members in case["manual_cands"]:
-            rec.add_candidate_cluster(CandidateCluster(CandidateCluster.kinds.NEIGHBOURING,
-                                                       [by_product[case["protos"][i]["product"]] for i in members]))
+        for entry in case["manual_cands"]:
+            # a list of protocluster indices: a "neighbouring" candidate; {"kind": ..., "members": [...]}: that kind
+            members = entry["members"] if isinstance(entry, dict) else entry
+            kind = entry["kind"] if isinstance(entry, dict) else "neighbouring"
+            rec.add_candidate_cluster(CandidateCluster(CandidateCluster.kinds.from_string(kind),
+                                                       [by_product[case["protos"][i]["product"]] for i in members],
+                                                       circular_wrap_point=length if case["circular"] else None))
     elif case.get("protos"):
         rec.create_candidate_clusters()
     rec.create_regions()
@@ -131,11 +135,12 @@ def content_dump(rec: Any, region: Any) -> Dict[str, Any]:
     motifs = [m for m in rec.get_cds_motifs() if m.is_contained_by(region)]
     return {
         "loc": common.location_json(region.location),
-        "cands": [{"loc": common.location_json(c.location), "kind": str(c.kind),
+        "cands": [{"loc": common.location_json(c.location), "kind": str(c.kind), "n": c.get_candidate_cluster_number(),
                    "protos": [{"loc": common.location_json(p.location), "core": common.location_json(p.core_location),
-                               "product": p.product} for p in c.protoclusters]}
+                               "product": p.product, "n": p.get_protocluster_number()} for p in c.protoclusters]}
                   for c in region.candidate_clusters],
-        "subs": [{"loc": common.location_json(s.location), "label": s.label} for s in region.subregions],
+        "subs": [{"loc": common.location_json(s.location), "label": s.label, "n": s.get_subregion_number()}
+                 for s in region.subregions],
         "cds": [{"loc": common.location_json(c.location), "name": c.get_name()} for c in inside],
         "motifs": [{"loc": common.location_json(m.location), "name": m.get_name(),
                     "pre": type(m).__name__ == "Prepeptide"} for m in motifs],
@@ -380,9 +385,23 @@ def content_locs(content: Dict[str, Any]) -> List[Dict[str, Any]]:
     return locs
 
 
-def canonical_content(content: Dict[str, Any], images: Optional[List[Any]]) -> Dict[str, Any]:
+def file_numbers(parent: List[Dict[str, Any]], written: List[Dict[str, Any]]) -> Dict[str, Dict[int, int]]:
+    """per kind of area: record-wide number -> number in the region file, read off the written features"""
+    out: Dict[str, Dict[int, int]] = {"cands": {}, "protos": {}, "subs": {}}
+    for kind, ftype, key in (("cands", "cand_cluster", "candidate_cluster_number"),
+                             ("protos", "protocluster", "protocluster_number"),
+                             ("subs", "subregion", "subregion_number")):
+        for feature in written:
+            if feature["type"] == ftype and feature["src"] >= 0 and key in feature["q"] and key in parent[feature["src"]]["q"]:
+                out[kind][parent[feature["src"]]["q"][key]] = feature["q"][key]
+    return out
+
+
+def canonical_content(content: Dict[str, Any], images: Optional[List[Any]],
+                      numbers: Optional[Dict[str, Dict[int, int]]] = None) -> Dict[str, Any]:
     """content dump with locations replaced by canonical base sets — their images in file coordinates when
-       `images` (the driver's answer for `content_locs`) is given — and every collection sorted"""
+       `images` (the driver's answer for `content_locs`) is given — and every collection sorted; `by_number`: what
+       each area number stands for (numbers sent through `numbers`, the file's renumbering, when given)"""
     it = iter(images) if images is not None else None
     inside = {"last": True}
 
@@ -399,13 +418,26 @@ def canonical_content(content: Dict[str, Any], images: Optional[List[Any]]) -> D
         # that goes (nearly) all the way round, which no linear file can hold
         return sorted(row[:pos] + row[pos + 1:] for row in rows if row[pos])
     out: Dict[str, Any] = {"loc": img(content["loc"])}
+    def number(kind: str, n: int) -> Any:
+        return n if numbers is None else numbers[kind].get(n, f"record-wide {n}")
+    by_number: Dict[str, Any] = {}
     cands = []
     for cand in content["cands"]:
         cloc = img(cand["loc"])
-        protos = sorted([img(p["loc"]), img(p["core"]), p["product"]] for p in cand["protos"])
+        protos = []
+        for p in cand["protos"]:
+            protos.append([img(p["loc"]), img(p["core"]), p["product"]])
+            by_number[f"protocluster {number('protos', p['n'])}"] = protos[-1]
+        protos.sort()
         cands.append([cloc, cand["kind"], protos])
+        by_number[f"candidate {number('cands', cand['n'])}"] = cands[-1]
     out["cands"] = sorted(cands)
-    out["subs"] = sorted([img(s["loc"]), s["label"]] for s in content["subs"])
+    subs = []
+    for sub in content["subs"]:
+        subs.append([img(sub["loc"]), sub["label"]])
+        by_number[f"subregion {number('subs', sub['n'])}"] = subs[-1]
+    out["subs"] = sorted(subs)
+    out["by_number"] = by_number
     out["cds"] = keep([[c["name"], img(c["loc"]), inside["last"], strand_of(c["loc"])] for c in content["cds"]], 2)
     out["motifs"] = keep([[m["name"], img(m["loc"]), inside["last"], strand_of(m["loc"]), m["pre"]]
                           for m in content["motifs"]], 2)
@@ -428,11 +460,18 @@ class C12(Property):
         ("antismash/common/secmet/record.py", "Record.to_biopython"),
         ("antismash/common/secmet/features/candidate_cluster/structures.py", "CandidateCluster.from_biopython"),
         ("antismash/common/secmet/features/region/structures.py", "Region.from_biopython"),
+        # the order in which a loading record numbers areas, ties included (`numberedAsLoaded`, `tiesInFileOrder`)
+        ("antismash/common/secmet/features/cdscollection.py", "CDSCollection.__lt__"),
+        ("antismash/common/secmet/record.py", "Record.add_protocluster"),
+        ("antismash/common/secmet/record.py", "Record.add_candidate_cluster"),
+        ("antismash/common/secmet/record.py", "Record.add_subregion"),
     ]
     RULE = ("records (linear/circular, 40..3000 bases) with 0-6 protoclusters (cores and neighbourhoods, also over the "
-            "origin, also with identical coordinates), 0-3 subregions, genes (single/multi-exon/origin-spanning, both "
+            "origin, also with identical coordinates: two or three protoclusters / subregions of one region that only their record-wide "
+            "numbers tell apart, listed by the region's candidates in either order), 0-3 subregions, genes (single/multi-exon/origin-spanning, both "
             "strands), precursor peptides with leader/core/tail, plain motifs and misc features; candidate clusters and "
-            "regions formed by the real create_candidate_clusters/create_regions; EVERY region of the record is written "
+            "regions formed by the real create_candidate_clusters/create_regions (in some cases candidates made by hand and added with "
+            "the real add_candidate_cluster); EVERY region of the record is written "
             "with the real Region.write_to_genbank(record=bio_record), re-read with SeqIO.parse and with "
             "Record.from_genbank; layouts are steered to: several regions, a region touching a record end, a region over "
             "the origin, a region covering a whole circular record, genes cut by the region edge, origin-spanning genes "
@@ -459,7 +498,7 @@ class C12(Property):
         n = 20000 if deep else 1200
         for i in range(n):
             r = rng.random()
-            if r < 0.70:
+            if r < 0.68:
                 case = self.random_case(rng)
             elif r < 0.78:
                 case = self.whole_record_case(rng)
@@ -467,8 +506,10 @@ class C12(Property):
                 case = self.record_end_case(rng)
             elif r < 0.92:
                 case = self.multi_exon_over_origin_case(rng)
-            elif r < 0.96:
+            elif r < 0.95:
                 case = self.manual_candidate_case(rng)
+            elif r < 0.975:
+                case = self.tie_case(rng)
             else:
                 case = self.three_around_origin_case(rng)
             # the structured comments the full record carries (main.add_antismash_comments runs before any file is written)
@@ -510,9 +551,11 @@ class C12(Property):
                           n_cds=rng.choice([0, 2, 5, 8]), n_peps=rng.choice([0, 0, 1, 2, 3]),
                           n_misc=rng.choice([0, 1, 3]), force_cross=rng.random() < 0.3)
         if case["protos"] and rng.random() < 0.1:
+            # same coordinates, a product sorting before or after the original's, added before or after it: the
+            # candidates formed list equal protoclusters by product, the record numbers them in the order added
             twin = dict(rng.choice(case["protos"]))
-            twin["product"] = "twin"
-            case["protos"].append(twin)
+            twin["product"] = rng.choice(["twin", "a-twin"])
+            case["protos"].insert(rng.randrange(len(case["protos"]) + 1), twin)
         # most precursor peptides sit well inside an area, as real ones do
         areas = [p["core"] for p in case["protos"] if not p["core"]["c"]]
         for pep in case["peps"]:
@@ -610,6 +653,52 @@ class C12(Property):
         case["protos"] = [{"core": simple(first[0], first[1]), "loc": simple(first[0], first[1]), "product": "left"},
                           {"core": simple(second[0], second[1]), "loc": simple(second[0], second[1]), "product": "right"}]
         case["manual_cands"] = [[0, 1]]
+        return case
+
+    def tie_case(self, rng: random.Random) -> Dict[str, Any]:
+        """areas of one region on identical coordinates — two or three protoclusters (same neighbourhood; same or
+           different cores), the candidates holding them, subregions — which only their record-wide numbers tell
+           apart; the region's candidates list them in either order: candidates formed by the real
+           `create_candidate_clusters` (equal protoclusters listed by product, added to the record in any order), or
+           one hand-made "single" candidate per protocluster added through the real `add_candidate_cluster` in any
+           order (the candidate added later is listed first); other areas before them so that numbers change"""
+        length = rng.choice([200, 600, 2000])
+        circular = rng.random() < 0.5
+        u = length // 40
+        case = gen_layout(rng, length, circular, n_protos=0, n_subs=0, n_cds=rng.choice([0, 3]), n_peps=0, n_misc=0)
+        over = circular and rng.random() < 0.3
+        lo = length - rng.randint(2, 6) * u if over else rng.randint(8, 20) * u
+        size = rng.randint(6, 12) * u
+        cs, ce = lo + rng.randint(1, 2) * u, lo + size - rng.randint(1, 2) * u
+
+        def place(a: int, b: int) -> Dict[str, Any]:
+            if a >= length:
+                return simple(a - length, b - length)
+            return span(a, b - length, length) if b > length else simple(a, b)
+        k = rng.choice([2, 2, 3])
+        names = rng.sample(["prodA", "prodB", "prodC", "prodD"], k)
+        protos = []
+        for i, name in enumerate(names):
+            core = (cs, ce) if rng.random() < 0.6 else (cs + i, ce - i)
+            protos.append({"core": place(*core), "loc": place(lo, lo + size), "product": name})
+        if rng.random() < 0.7:       # something earlier in the record: the region is not the first one
+            protos.insert(rng.randrange(len(protos) + 1),
+                          {"core": simple(2 * u, 3 * u), "loc": simple(u, 4 * u), "product": "early"})
+        if rng.random() < 0.3:       # and a smaller protocluster inside the tied ones
+            protos.insert(rng.randrange(len(protos) + 1),
+                          {"core": place(cs + 2 * u // 2, cs + 2 * u // 2 + u), "loc": place(cs, ce), "product": "inner"})
+        case["protos"] = protos
+        if rng.random() < 0.5:
+            order = list(range(len(protos)))
+            rng.shuffle(order)
+            case["manual_cands"] = [{"kind": "single", "members": [i]} for i in order]
+            if rng.random() < 0.3:
+                tied = [i for i, p in enumerate(protos) if p["product"] in names]
+                rng.shuffle(tied)
+                case["manual_cands"].insert(rng.randrange(len(order) + 1), {"kind": "neighbouring", "members": tied})
+        for i in range(rng.choice([0, 0, 2, 3])):
+            case["subs"].append({"loc": place(lo, lo + size) if rng.random() < 0.7 else place(lo + u, lo + size - u),
+                                 "label": f"tied{i}"})
         return case
 
     def three_around_origin_case(self, rng: random.Random) -> Dict[str, Any]:
@@ -723,7 +812,8 @@ class C12(Property):
             if not all(r["seq_same"]):
                 bad = [f for f, ok in zip(e["features"], r["seq_same"]) if not ok][:2]
                 problems.append(f"features extracting different nucleotides: {bad}")
-            for flag in ("protos_numbered", "cands_numbered", "subs_numbered", "refs_in_range", "cores_agree",
+            for flag in ("protos_numbered", "cands_numbered", "subs_numbered", "protos_ties", "subs_ties",
+                         "refs_in_range", "cores_agree",
                          "one_region", "refs_consistent", "motif_locs", "inside_kept"):
                 if not oi[flag]:
                     problems.append(f"{flag} fails")
@@ -748,7 +838,7 @@ class C12(Property):
                 if rl["n_records"] != 1 or len(rl["regions"]) != 1:
                     problems.append(f"loaded file has {len(rl['regions'])} regions")
                 else:
-                    expected = canonical_content(r["content"], d["images"])
+                    expected = canonical_content(r["content"], d["images"], file_numbers(obs["parent"], e["features"]))
                     found = canonical_content(rl["regions"][0], None)
                     if data["start"] == data["end"]:
                         # a region going all the way round is cut open at its start: a peptide lying across the cut
@@ -762,7 +852,7 @@ class C12(Property):
                         keys = [key for key in expected if expected[key] != found.get(key)]
                         problems.append(f"loaded region differs in {keys}: expected {[expected[x] for x in keys][:1]} "
                                         f"found {[found[x] for x in keys][:1]}")
-                        if d["kf_equal_areas"] and keys == ["cands"]:
+                        if d["kf_equal_areas"] and set(keys) <= {"cands", "by_number"}:
                             class_here = "KF-C12-equal-areas"
                         if d["kf_file_reconnects"]:
                             class_here = "KF-C12-circular-file-reconnects"
